@@ -7,6 +7,7 @@ import (
 	"pgregory.net/rapid"
 
 	"verifharness/ast"
+	"verifharness/render"
 )
 
 // Scope is a flat variable scope.
@@ -1053,6 +1054,9 @@ func (g *EG) template(depth int) ast.Node {
 			} else {
 				t.Parts = append(t.Parts, ast.TLit{Text: "\n"})
 			}
+		}
+		if !render.CanHeredoc(t) {
+			t.Form = ast.Quoted
 		}
 	}
 	return t
